@@ -48,6 +48,9 @@ def terminal_stream(run):
         run.oblige("opshell harness builds against /repo", False, log)
         return
     cases = term_cases(run.rng, 200 if run.tier == "quick" else 4000)
+    # the terminal is resized (a real SIGWINCH to the process) after every chunk, with the whole Shell.Do running: nothing is shown twice
+    for k in range(4 if run.tier == "quick" else 40):
+        cases.append({"i": len(cases), "winch": True, "chunks": [("<K%02d-%03d>%s\n" % (k, j, "x" * run.rng.randrange(0, 40))).encode().hex() for j in range(run.rng.randrange(3, 12))]})
     inf, outf = os.path.join(run.rundir, "plain.in"), os.path.join(run.rundir, "plain.out")
     with open(inf, "w") as f:
         for c in cases:
@@ -58,11 +61,18 @@ def terminal_stream(run):
     if rc != 0 or len(res) != len(cases) or any(r.get("fail") for r in res):
         run.oblige("terminal: harness ran all cases under a pty", False, "rc=%s got %d of %d: %s" % (rc, len(res), len(cases), out[-1500:].decode(errors="replace")))
         return
+    import re
+    def shown_of(c, r):
+        b = bytes.fromhex(r.get("shown", ""))
+        if c.get("winch"):      # Shell.Do is running: the prompt is redrawn around every write; take the escape sequences and the prompt out
+            b = re.sub(rb"\x1b\[[0-9;]*[A-Za-z]", b"", b).replace(b"> ", b"")
+        return b
     vlib.judge_stream(run, "terminal", TIMPORTS, "tcase", cases, res,
-                      lambda c, r: "mkt [%s] %s" % ("; ".join(vlib.coq_str(bytes.fromhex(h)) for h in c["chunks"]), vlib.coq_str(bytes.fromhex(r.get("shown", "")))),
+                      lambda c, r: "mkt [%s] %s" % ("; ".join(vlib.coq_str(bytes.fromhex(h)) for h in c["chunks"]), vlib.coq_str(shown_of(c, r))),
                       TCLAUSES, (0,),
                       "last hop (lib/opshell): UTF-8 text, random non-UTF-8 bytes, control bytes, runes straddling the 2048-byte read boundary, cut into "
-                      "one chunk / single bytes / 2048-byte reads / random reads, sent as Plain lines to the real Shell with its output captured; "
+                      "one chunk / single bytes / 2048-byte reads / random reads, sent as Plain lines to the real Shell with its output captured; also with the "
+                      "whole Shell.Do running and a real SIGWINCH after every chunk (prompt redraws stripped); "
                       "non-trivial = contains non-ASCII bytes (tag 2: a chunk boundary inside a multi-byte sequence)",
                       key_fn=lambda c: json.dumps(c["chunks"]))
 
@@ -88,6 +98,14 @@ def read_scripts(rng, n):
             sz = rng.choice([0, 0, 1, 10, 2048, 3000])
             ops.append({"op": "data", "s": 1, "d": B.K(bytes((i * 11 + k) % 256 for i in range(sz))), "err": end})
         ops += [{"op": "data", "s": 1, "d": B.K(b"after the end"), "err": ""}, {"op": "release", "s": 1}]
+        out.append(ops)
+    # long runs of zero-length reads (a transport that keeps returning (0, nil)) between and before data: nothing may end the stream
+    for nempty in (99, 100, 101, 250):
+        ops = [{"op": "admit", "s": 1, "d": "out", "key": B.K(b"a"), "wk": "plain", "wfail": -1, "ffail": -1}]
+        ops += [{"op": "data", "s": 1, "d": "", "err": ""}] * nempty
+        ops += [{"op": "data", "s": 1, "d": B.K(b"after the empty reads"), "err": ""}]
+        ops += [{"op": "data", "s": 1, "d": "", "err": ""}] * nempty
+        ops += [{"op": "data", "s": 1, "d": B.K(b"and again"), "err": "eof"}, {"op": "release", "s": 1}]
         out.append(ops)
     return out
 
@@ -115,7 +133,7 @@ def check(run):
         return
     n = 300 if run.tier == "quick" else 5000
     B.run_stream(run, binp, "readscripts", 3, read_scripts(run.rng, n), CLAUSES,
-                 "read scripts: 0-6 reads of 0/1/2/3/100/2047/2048/2049/4096/5000 bytes (the broker's buffer is 2048), zero-length reads, then the "
+                 "read scripts (incl. runs of 99-250 zero-length reads): 0-6 reads of 0/1/2/3/100/2047/2048/2049/4096/5000 bytes (the broker's buffer is 2048), zero-length reads, then the "
                  "stream ends with EOF / unexpected EOF / closed pipe / other error - with 0..3000 bytes returned TOGETHER with the error - or by "
                  "client cancel, or not at all; output offered after the end must not be shown")
     B.run_stream(run, binp, "stalled", 3, stalled(run.rng, 60 if run.tier == "quick" else 1500), CLAUSES,
